@@ -33,6 +33,9 @@ import Nstd.Future.Handshake
                           `destructor_is_translated`, `set_is_translated` (Future<void>::set of Future.cpp), `result_conversion_is_translated`,
                           `proc_order_is_translated`, `fut_ctor_is_default`, `state_enum_is_translated`; `flags_after_join_translated`:
                           the last sentence of C10 stated with the translated `isFinished()` / `isAborted()`.
+    Signal.cpp            `signal_set_is_translated`, `signal_reset_is_translated`, `signal_wait_is_translated` : `Signal::set / reset / wait()`
+                          (pthread branch; `pthread_cond_wait` = release+enqueue, wake, re-lock) are the frames `sSet* / sRst* / sWait*`.
+    re-polling            `failed_pop_is_pure`, `fastsignal_set_when_already_set_is_a_no_op` (any re-poll budget; C10-h5).
     size()                `size_body_never_underflows` : the translated `LockFreeQueue::size` (reads `_head`, then `_tail`), run against
                           arbitrary steps of other threads in between, subtracts a head that is not above the tail it reads.
 
@@ -583,22 +586,25 @@ theorem destructor_is_translated (s : State) (t : Tid) (th : Thread) (f : Nat) (
     (futADtorStep (s.futs f) 0 {}).2 = .call [.futJoin] none {} := by
   simp [stepFrame, hs, futDtorStep, futADtorStep, futFrames, calleeFrame, setThread, upd]
 
-/-- `Future<void>::set()`: `pSetRd` reads `_aborting` (first micro-step), `pSetX` exchanges `_state` with the enumerator chosen by it
-    (second micro-step), then `_sig.set()` (frame `pSig` pushes it, and below it the `delete` of `proc`) -/
-theorem set_is_translated (s : State) (t : Tid) (th : Thread) (c : Nat) (r : CallRec) (hc : s.calls c = some r) (ab : Bool) (L : FutSetL)
-    (hL : L.x0 = ab) :
-    (∃ L1, futSetStep (s.futs r.fut) 0 {} = (s.futs r.fut, .goto 1 L1) ∧
-        (stepFrame s t th (.pSetRd c)).1 = setThread s t (th.cont [.pSetX c L1.x0])) ∧
-    (stepFrame s t th (.pSetX c ab)).1.futs r.fut = (futSetStep (s.futs r.fut) 1 L).1 ∧
-    (stepFrame s t th (.pSetX c ab)).1.threads t = some (th.cont [.pSig c]) ∧
-    (stepFrame s t th (.pSig c)).1 =
-      setThread s t (th.cont (futFrames r.fut (fun _ => []) (futSetStep (s.futs r.fut) 1 L).2 ++ [.pDelete c])) := by
-  refine ⟨⟨{ x0 := (s.futs r.fut).aborting }, ?_, ?_⟩, ?_, ?_, ?_⟩
-  · simp [futSetStep]
-  · simp [stepFrame, hc]
-  · cases ab <;> simp [stepFrame, hc, futSetStep, hL, setThread, setFut, upd]
-  · simp [stepFrame, hc, setThread, setFut, upd]
-  · simp [stepFrame, hc, futSetStep, futFrames, calleeFrame]
+/-- `Future<void>::set()`: `pSetRd` reads `_aborting` (first micro-step; the value read travels in the locals `L1` resp. in the frame
+    `pSetX c ab`), `pSetX` — in any later state `s'` — exchanges `_state` with the enumerator chosen by that value (second micro-step),
+    then `_sig.set()` (frame `pSig` pushes it, and below it the `delete` of `proc`) -/
+theorem set_is_translated (s : State) (t : Tid) (th : Thread) (c : Nat) (r : CallRec) (hc : s.calls c = some r) :
+    match futSetStep (s.futs r.fut) 0 {} with
+    | (x', .goto 1 L1) =>
+        x' = s.futs r.fut ∧
+        (stepFrame s t th (.pSetRd c)).1 = setThread s t (th.cont [.pSetX c (s.futs r.fut).aborting]) ∧
+        (∀ (s' : State) (th' : Thread), s'.calls c = some r →
+          (stepFrame s' t th' (.pSetX c (s.futs r.fut).aborting)).1.futs r.fut = (futSetStep (s'.futs r.fut) 1 L1).1 ∧
+          (stepFrame s' t th' (.pSetX c (s.futs r.fut).aborting)).1.threads t = some (th'.cont [.pSig c]) ∧
+          (stepFrame s' t th' (.pSig c)).1 =
+            setThread s' t (th'.cont (futFrames r.fut (fun _ => []) (futSetStep (s'.futs r.fut) 1 L1).2 ++ [.pDelete c])))
+    | _ => False := by
+  simp only [futSetStep, if_true]
+  refine ⟨trivial, by simp [stepFrame, hc], ?_⟩
+  intro s' th' hc'
+  cases hab : (s.futs r.fut).aborting <;>
+    simp [stepFrame, hc', futSetStep, futFrames, calleeFrame, setThread, setFut, upd]
 
 /-- `Future<A>::operator const A&`: `future.join()` and then the read of `result` (frame `evResult`) -/
 theorem result_conversion_is_translated (s : State) (t : Tid) (th : Thread) (f : Nat) (rest : List ClientOp) (hs : th.script = .result f :: rest) :
@@ -642,6 +648,120 @@ theorem flags_after_join_translated {cfg : Config} {s : State} (hwf : cfg.WellFo
   rcases h1 with h1 | h1
   · simp [h1]
   · simp [h1, h2 h1]
+
+/-! ## `Signal::set / reset / wait()` (src/Signal.cpp, pthread branch) on the frames `sSet* / sRst* / sWait*` -/
+
+/-- the frame of program counter `n` of the translated `Signal::set` on signal `σ` (`gen` = the incarnation ghost the model's broadcast frame carries) -/
+def sigSetPc (σ gen : Nat) : Nat → List Frame
+  | 1 => [.sSetStore σ]
+  | 2 => [.sSetBcast σ gen]
+  | 3 => [.sSetUnlock σ]
+  | _ => []
+def sigResetPc (σ : Nat) : Nat → List Frame
+  | 1 => [.sRstStore σ]
+  | 2 => [.sRstUnlock σ]
+  | _ => []
+def sigWaitPc (σ : Nat) : Nat → List Frame
+  | 1 => [.sWaitChk σ]
+  | 2 => [.sWaitUnlock σ]
+  | 3 => [.sWaitCwait σ]
+  | 4 => [.sWaitCwake σ]
+  | 5 => [.sWaitRelock σ]
+  | _ => []
+
+/-- frames a translated step of a Signal member leaves on the stack -/
+def sigFrames (pcf : Nat → List Frame) {L R : Type} : GStep L R → List Frame
+  | .goto n _ => pcf n
+  | _ => []
+
+/-- **`signal_set_is_translated`** — the four frames of `Signal::set` (lock, store of the flag, broadcast, unlock — in this order: the
+    repaired code, fixes/sync/0001) are the four translated micro-steps: same Signal afterwards, same next frame. -/
+theorem signal_set_is_translated (s : State) (t : Tid) (th : Thread) (σ : Nat) (hrep : s.cfg.repaired = true) (L : SigSetL) :
+    ((stepFrame s t th (.sSetLock σ)).1.sigs σ = (sigSetStep t (s.sigs σ) 0 L).1 ∧
+      (stepFrame s t th (.sSetLock σ)).1.threads t = some (th.cont (sigFrames (sigSetPc σ (s.sigs σ).gen) (sigSetStep t (s.sigs σ) 0 L).2))) ∧
+    ((stepFrame s t th (.sSetStore σ)).1.sigs σ = (sigSetStep t (s.sigs σ) 1 L).1 ∧
+      (stepFrame s t th (.sSetStore σ)).1.threads t = some (th.cont (sigFrames (sigSetPc σ (s.sigs σ).gen) (sigSetStep t (s.sigs σ) 1 L).2))) ∧
+    (∀ gen, (stepFrame s t th (.sSetBcast σ gen)).1.sigs σ = (sigSetStep t (s.sigs σ) 2 L).1 ∧
+      (stepFrame s t th (.sSetBcast σ gen)).1.threads t = some (th.cont (sigFrames (sigSetPc σ gen) (sigSetStep t (s.sigs σ) 2 L).2))) ∧
+    ((stepFrame s t th (.sSetUnlock σ)).1.sigs σ = (sigSetStep t (s.sigs σ) 3 L).1 ∧
+      (stepFrame s t th (.sSetUnlock σ)).1.threads t = some (th.cont (sigFrames (sigSetPc σ 0) (sigSetStep t (s.sigs σ) 3 L).2))) := by
+  refine ⟨⟨?_, ?_⟩, ⟨?_, ?_⟩, fun gen => ⟨?_, ?_⟩, ⟨?_, ?_⟩⟩ <;>
+    simp [stepFrame, hrep, sigSetStep, sigFrames, sigSetPc, setThread, setSig, upd]
+
+theorem signal_reset_is_translated (s : State) (t : Tid) (th : Thread) (σ : Nat) (L : SigResetL) :
+    ((stepFrame s t th (.sRstLock σ)).1.sigs σ = (sigResetStep t (s.sigs σ) 0 L).1 ∧
+      (stepFrame s t th (.sRstLock σ)).1.threads t = some (th.cont (sigFrames (sigResetPc σ) (sigResetStep t (s.sigs σ) 0 L).2))) ∧
+    ((stepFrame s t th (.sRstStore σ)).1.sigs σ = (sigResetStep t (s.sigs σ) 1 L).1 ∧
+      (stepFrame s t th (.sRstStore σ)).1.threads t = some (th.cont (sigFrames (sigResetPc σ) (sigResetStep t (s.sigs σ) 1 L).2))) ∧
+    ((stepFrame s t th (.sRstUnlock σ)).1.sigs σ = (sigResetStep t (s.sigs σ) 2 L).1 ∧
+      (stepFrame s t th (.sRstUnlock σ)).1.threads t = some (th.cont (sigFrames (sigResetPc σ) (sigResetStep t (s.sigs σ) 2 L).2))) := by
+  refine ⟨⟨?_, ?_⟩, ⟨?_, ?_⟩, ⟨?_, ?_⟩⟩ <;>
+    simp [stepFrame, sigResetStep, sigFrames, sigResetPc, setThread, setSig, upd]
+
+/-- **`signal_wait_is_translated`** — `Signal::wait()`: lock; test of the flag (→ unlock and return, or → `pthread_cond_wait` = release +
+    enter the wait set, be woken, re-lock, and test again).  The six frames are the six translated micro-steps.  For the wake-up frame the
+    Signal is compared only when the wake-up is a regular one (`t` has been removed from the wait set by a broadcast); a spurious wake-up
+    is a step of the simulated POSIX layer (it removes `t` from the wait set and consumes the budget), not of the translated code. -/
+theorem signal_wait_is_translated (s : State) (t : Tid) (th : Thread) (σ : Nat) (L : SigWaitL) :
+    ((stepFrame s t th (.sWaitLock σ)).1.sigs σ = (sigWaitStep t (s.sigs σ) 0 L).1 ∧
+      (stepFrame s t th (.sWaitLock σ)).1.threads t = some (th.cont (sigFrames (sigWaitPc σ) (sigWaitStep t (s.sigs σ) 0 L).2))) ∧
+    ((stepFrame s t th (.sWaitChk σ)).1.sigs σ = (sigWaitStep t (s.sigs σ) 1 L).1 ∧
+      (stepFrame s t th (.sWaitChk σ)).1.threads t = some (th.cont (sigFrames (sigWaitPc σ) (sigWaitStep t (s.sigs σ) 1 L).2))) ∧
+    ((stepFrame s t th (.sWaitUnlock σ)).1.sigs σ = (sigWaitStep t (s.sigs σ) 2 L).1 ∧
+      (stepFrame s t th (.sWaitUnlock σ)).1.threads t = some (th.cont (sigFrames (sigWaitPc σ) (sigWaitStep t (s.sigs σ) 2 L).2))) ∧
+    ((stepFrame s t th (.sWaitCwait σ)).1.sigs σ = (sigWaitStep t (s.sigs σ) 3 L).1 ∧
+      (stepFrame s t th (.sWaitCwait σ)).1.threads t = some (th.cont (sigFrames (sigWaitPc σ) (sigWaitStep t (s.sigs σ) 3 L).2))) ∧
+    (((s.sigs σ).waiters.contains t = false → (stepFrame s t th (.sWaitCwake σ)).1.sigs σ = (sigWaitStep t (s.sigs σ) 4 L).1) ∧
+      (stepFrame s t th (.sWaitCwake σ)).1.threads t = some (th.cont (sigFrames (sigWaitPc σ) (sigWaitStep t (s.sigs σ) 4 L).2))) ∧
+    ((stepFrame s t th (.sWaitRelock σ)).1.sigs σ = (sigWaitStep t (s.sigs σ) 5 L).1 ∧
+      (stepFrame s t th (.sWaitRelock σ)).1.threads t = some (th.cont (sigFrames (sigWaitPc σ) (sigWaitStep t (s.sigs σ) 5 L).2))) := by
+  refine ⟨⟨?_, ?_⟩, ⟨?_, ?_⟩, ⟨?_, ?_⟩, ⟨?_, ?_⟩, ⟨?_, ?_⟩, ⟨?_, ?_⟩⟩
+  · simp [stepFrame, sigWaitStep, sigFrames, sigWaitPc, setThread, setSig, upd]
+  · simp [stepFrame, sigWaitStep, sigFrames, sigWaitPc, setThread, setSig, upd]
+  · cases h : (s.sigs σ).signaled <;> simp [stepFrame, h, sigWaitStep, sigFrames, sigWaitPc, setThread, setSig, upd]
+  · cases h : (s.sigs σ).signaled <;> simp [stepFrame, h, sigWaitStep, sigFrames, sigWaitPc, setThread, setSig, upd]
+  · simp [stepFrame, sigWaitStep, sigFrames, sigWaitPc, setThread, setSig, upd]
+  · simp [stepFrame, sigWaitStep, sigFrames, sigWaitPc, setThread, setSig, upd]
+  · simp [stepFrame, sigWaitStep, sigFrames, sigWaitPc, setThread, setSig, upd]
+  · simp [stepFrame, sigWaitStep, sigFrames, sigWaitPc, setThread, setSig, upd]
+  · intro h
+    have h' : ¬ t ∈ (s.sigs σ).waiters := by simpa using h
+    simp [stepFrame, h', sigWaitStep, sigFrames, sigWaitPc, setThread, setSig, upd]
+  · by_cases h' : t ∈ (s.sigs σ).waiters <;> simp [stepFrame, h', sigWaitStep, sigFrames, sigWaitPc, setThread, setSig, upd]
+  · simp [stepFrame, sigWaitStep, sigFrames, sigWaitPc, setThread, setSig, upd]
+  · simp [stepFrame, sigWaitStep, sigFrames, sigWaitPc, setThread, setSig, upd]
+
+/-! ## facts that make re-polling and "load before test-and-set" harmless (any re-poll budget; harmless change C10-h5) -/
+
+/-- **`failed_pop_is_pure`** — every micro-step of a `pop()` up to the point where it fails (`popRead`, `popChk`, a losing `popCas`) leaves
+    the ring exactly as it was, and once the CAS has been won the pop cannot fail any more: a worker may poll an empty queue any number
+    of times (any re-poll budget) without any effect on the queue. -/
+theorem failed_pop_is_pure {α : Type} (r : Ring α) :
+    (ringStep r (.popRead : RingPc α)).1 = r ∧
+    (∀ h, (ringStep r (.popChk h : RingPc α)).1 = r) ∧
+    (∀ h, r.head ≠ h → (ringStep r (.popCas h : RingPc α)).1 = r) ∧
+    (∀ pc, (ringStep r pc).2 = .popped none → (ringStep r pc).1 = r ∧ ∃ h, pc = .popChk h) ∧
+    (∀ h, ∃ pc', (ringStep r (.popData h : RingPc α)).2 = .cont pc') ∧
+    (∀ h d, (ringStep r (.popRel h d : RingPc α)).2 = .popped (some d)) := by
+  refine ⟨rfl, ?_, ?_, ?_, ?_, ?_⟩
+  · intro h; simp only [ringStep]; split <;> rfl
+  · intro h hne; simp [ringStep, hne]
+  · intro pc hpc
+    cases pc <;> simp only [ringStep] at hpc ⊢ <;> (try split at hpc) <;> simp_all
+  · intro h; exact ⟨_, rfl⟩
+  · intro h d; rfl
+
+/-- **`fastsignal_set_when_already_set_is_a_no_op`** — with `_state` already 1, `FastSignal::set()` changes nothing and does not touch the
+    Signal: reading `_state` first and skipping the test-and-set in that case (C10-h5) has the same effect. -/
+theorem fastsignal_set_when_already_set_is_a_no_op (fs : Nat) (p : Pool) (L : FsSetL) (h : fsState p fs = 1) :
+    (fsSetStep fs p 0 L).1 = p ∧ ∃ L', (fsSetStep fs p 0 L).2 = .ret () L' := by
+  constructor
+  · simp only [fsSetStep, if_true]
+    have : setFsState p fs 1 = p := by
+      cases p
+      by_cases h0 : fs = 0 <;> simp_all [setFsState, fsState]
+    split <;> exact this
+  · simp [fsSetStep, h]
 
 /-! ## `LockFreeQueue::size` (not used by the pool; the closed ring system with arbitrary steps of other threads in between) -/
 
@@ -703,7 +823,7 @@ theorem size_body_never_underflows {α : Type} {cap : Nat} (hc : 0 < cap) {s s' 
 OPEN:
   * NOT translated (hand translation in Model.lean, tied by the step-by-step replay only): the effect statements of `ThreadPool::run` after its
     decision (the spawn / retire branches under the mutex, the purge of the context list, `Thread::start` and its failure branch), `~ThreadPool`
-    (counted loop over `_threadCount` + iterator loop of joins), `startProc` (lazy pool under the spin lock, arming), `Signal.cpp`.
+    (counted loop over `_threadCount` + iterator loop of joins), `startProc` (lazy pool under the spin lock, arming); of `Signal.cpp` the constructor / destructor / `wait(timeout)`.
   * the semantics the translator gives to the C++ subset (one micro-step per shared access with the thread-local run-on, ring tickets as `Nat`,
     mask arithmetic, `(usize)-1` as `none`, the destructor of the trivially destructible `Job`, `Atomic::*`) is an assumption (MANIFEST note);
     `worker_loop_is_translated` / `run_push_loop_is_translated` compare frames after expanding the model's call-site frames
